@@ -156,6 +156,9 @@ CLAIMED["C09"] = ("proof",
     "tables, send lock, rendezvous channels, wire log): for EVERY label sequence (any number of callers, any interleaving, any server answer order / containers / gzip) each "
     "completed call returned the value dispatched for its own, unique msg_id, which is the body of a frame the server injected; vector values only for calls that declared hints. "
     "The key under which the receive loop looks up a message's decoder hints (reqMsgIDOf) is modelled at byte level (TL/ReqId.v) and proved to be the req_msg_id of every result, plain or packed as a whole, and 0 for everything else (C09_hint_key_*); run against the real function on bodies of every shape. "
+    "The channel hand-over is one guarded step in that system; the finer system in which the receive loop walks into its send BEFORE the caller listens and waits there "
+    "(Client/Rendezvous.v) is proved to reach nothing new (C09_early_handover_refines, C09_routing_early, C09_early_completion_never_refused) and is exercised on the real "
+    "client (script operation `early rx`, the extracted xstep run beside step2). "
     "Tied to the code by trace validation: the real client built with -tags verif runs under a controlled scheduler (yield hooks at the model's step boundaries) against the "
     "in-process reference server; every observed trace must be accepted by the extracted step with equal projections; direct oracles for wrong answers, process death, stalls.",
     "DESIGN.md section 8 (C09-C11, C16: plan) and section 11.4 / 11.6 (as built)",
